@@ -68,6 +68,7 @@ type c13world struct {
 	qs     *badgerstore.QueryStore
 	clean  func()
 	model  map[string]*string // id -> key (nil = not indexed) : the harness' own copy of the store content
+	inited bool // Init has run on this store
 	hold   int32
 	gate   chan struct{}
 	atGate chan struct{}
@@ -316,6 +317,32 @@ func RunC13(c *core.Ctx) {
 				ops = append(ops, mutOp{k2, d2})
 			}
 			w.mutateTxn(id, ops, step)
+			if step == 2+h%3 {
+				// Init in the middle of the history: it creates the ids that are missing (once per store) and
+				// leaves the values that exist alone - also in the indexes
+				seedKeys := map[string]string{}
+				err := w.bs.Init(func(add func(id string, v interface{})) error {
+					for k := 0; k < 3; k++ {
+						sid, sk := c13ids[rng.Intn(len(c13ids))], c13keys[1+rng.Intn(len(c13keys)-1)]
+						if _, dup := seedKeys[sid]; dup {
+							continue
+						}
+						seedKeys[sid] = sk
+						key := sk
+						add(sid, mkIval(&key, 77))
+					}
+					return nil
+				})
+				if err == nil && !w.inited {
+					w.inited = true
+					for sid, sk := range seedKeys {
+						if _, exists := w.model[sid]; !exists {
+							key := sk
+							w.model[sid] = &key
+						}
+					}
+				}
+			}
 			w.qs.Flush()
 			ents := w.entries()
 			for k := 0; k < c.Pick(14, 40); k++ {
